@@ -5,30 +5,42 @@
 From Verif Require Import Lib.Base Model.C20_Fanout Proofs.C20_Fanout Check.C20.
 From Coq Require Import ZifyBool ZifyN ZifyNat.
 
-Lemma fan_agree_no_leak id kind n timeout evs returned ok nblocked :
-  agree {| c_id := id; c_body := Fan kind n timeout evs returned ok nblocked |} = true ->
-  final (fan_model n timeout evs) = true ->
+Lemma fan_agree_no_leak id kind n timeout detect evs returned ok nblocked :
+  agree {| c_id := id; c_body := Fan kind n timeout detect evs returned ok nblocked |} = true ->
+  final (fan_model n timeout detect evs) = true ->
   nblocked = 0.
 Proof.
   unfold agree; cbn [c_body]. intros Ha Hf.
   apply andb_prop in Ha as [_ Hb]. apply N.eqb_eq in Hb. subst nblocked.
-  unfold fan_model in *. destruct (scenario_sched n (N.of_nat n) 1 timeout evs) as [sch Hs].
+  unfold fan_model in *. destruct (scenario_sched n (N.of_nat n) 1 timeout detect evs) as [sch Hs].
   rewrite Hs in *. apply no_leak_when_cap_ge_n; [lia | exact Hf].
 Qed.
 
-Lemma fan_agree_returns id kind n evs returned ok nblocked :
-  agree {| c_id := id; c_body := Fan kind n true evs returned ok nblocked |} = true ->
-  final (fan_model n true evs) = true ->
+Lemma fan_agree_returns id kind n detect evs returned ok nblocked :
+  agree {| c_id := id; c_body := Fan kind n true detect evs returned ok nblocked |} = true ->
+  final (fan_model n true detect evs) = true ->
   returned = true.
 Proof.
   unfold agree; cbn [c_body]. intros Ha Hf.
   apply andb_prop in Ha as [Ha _]. apply andb_prop in Ha as [Ha _]. apply Bool.eqb_prop in Ha. subst returned.
-  unfold fan_model in *. destruct (scenario_sched n (N.of_nat n) 1 true evs) as [sch Hs].
+  unfold fan_model in *. destruct (scenario_sched n (N.of_nat n) 1 true detect evs) as [sch Hs].
   rewrite Hs in *. apply collector_returns_with_timeout. exact Hf.
 Qed.
 
-Lemma P_b_fan_sound id kind n timeout evs returned ok nblocked :
-  P_b {| c_id := id; c_body := Fan kind n timeout evs returned ok nblocked |} = true <->
+Lemma fan_agree_unblind_returns id kind n evs returned ok nblocked :
+  (0 < n)%nat ->
+  agree {| c_id := id; c_body := Fan kind n false true evs returned ok nblocked |} = true ->
+  final (fan_model n false true evs) = true ->
+  returned = true.
+Proof.
+  unfold agree; cbn [c_body]. intros Hn Ha Hf.
+  apply andb_prop in Ha as [Ha _]. apply andb_prop in Ha as [Ha _]. apply Bool.eqb_prop in Ha. subst returned.
+  unfold fan_model in *. destruct (scenario_sched n (N.of_nat n) 1 false true evs) as [sch Hs].
+  rewrite Hs in *. apply collector_returns_with_detection; [lia | exact Hf].
+Qed.
+
+Lemma P_b_fan_sound id kind n timeout detect evs returned ok nblocked :
+  P_b {| c_id := id; c_body := Fan kind n timeout detect evs returned ok nblocked |} = true <->
   returned = true /\ nblocked = 0.
 Proof.
   unfold P_b; cbn [c_body]. rewrite andb_true_iff, N.eqb_eq. tauto.
